@@ -38,6 +38,7 @@ type Cfg struct {
 	Group bool   `json:"group"` // run through GroupTunnel
 	Q     int64  `json:"q"`     // real-time quiesce pause, µs (0 in a bubble)
 	Mode  string `json:"mode"`
+	Slack int64  `json:"slack"` // real-time tolerance for timing clauses, µs
 	Poll  int64  `json:"poll"` // socket hand-off retry period, µs
 }
 
@@ -77,6 +78,8 @@ type World struct {
 	Quiesce func()
 	Bubble  bool
 
+	attMu     sync.Mutex
+	att       int // number of successful connects seen: tags ConnReq frames with their attempt
 	mu        sync.Mutex
 	tun       *knx.Tunnel
 	gt        *knx.GroupTunnel
@@ -99,11 +102,23 @@ func NewWorld(rec *sim.Recorder, cfg Cfg, quiesce func()) *World {
 	w.Sock = sim.NewMemSock(rec, cfg.TCP, time.Duration(cfg.Poll)*time.Microsecond)
 	w.Net = &sim.Net{TCP: cfg.TCP}
 	w.Gw = sim.NewGateway(rec, cfg.TCP)
+	w.Sock.OnIn = func(f sim.Frame) {
+		if f.Svc == "ConnRes" && f.St == 0 {
+			w.attMu.Lock()
+			w.att++
+			w.attMu.Unlock()
+		}
+	}
 	w.Sock.OnTx = func(f sim.Frame) {
 		if f.Svc == "TunnelReq" {
 			w.mu.Lock()
 			w.curSnd = f.Seq
 			w.mu.Unlock()
+		}
+		if f.Svc == "ConnReq" {
+			w.attMu.Lock()
+			f.Att = w.att
+			w.attMu.Unlock()
 		}
 		w.Net.Put("c2g", f)
 	}
@@ -269,6 +284,26 @@ func (w *World) Exec(st Step) {
 		i := st.I % n
 		if i < 0 {
 			i += n
+		}
+		if st.Svc != "" { // address the datagram by service type: the I-th oldest of that type
+			i = -1
+			k := 0
+			for j := 0; j < n; j++ {
+				if f, _ := w.Net.Peek(st.Dir, j); f.Svc == st.Svc {
+					if k == st.I {
+						i = j
+						break
+					}
+					k++
+					if i < 0 {
+						i = j
+					}
+				}
+			}
+			if i < 0 {
+				skip("no-such-frame")
+				return
+			}
 		}
 		if w.Cfg.TCP {
 			if st.Act != "deliver" {
@@ -606,6 +641,6 @@ func CfgEvent(r Run) sim.Ev {
 	if r.Cfg.TCP {
 		mode = "tcp"
 	}
-	return sim.Ev{K: "Cfg", G: int(r.Cfg.H), Ch: -1, Seq: -1, St: -1, Pid: r.ID, A: int(r.Cfg.R), B: int(r.Cfg.T),
+	return sim.Ev{K: "Cfg", G: int(r.Cfg.H), Ch: int(r.Cfg.Slack), Seq: -1, St: -1, Pid: r.ID, A: int(r.Cfg.R), B: int(r.Cfg.T),
 		S: fmt.Sprintf("%s,%s", mode, r.Cfg.Mode)}
 }
